@@ -31,7 +31,8 @@ RULE = ("(a) Single-thread sequences of 1-15 store calls incl. failing ones (imp
         "successful one; (b) >=1 preemption actually taken while both threads still had store work. Distinct by "
         "hash of the case.")
 ASSUMPTIONS = ["preemption granularity is the source line of the two store files, not the bytecode",
-               "final-state linearizability at the granularity of whole store operations, compared structurally (node "
+               "final-state serializability at the granularity of the STORE's locked operations (clone_graph = "
+               "extract_graph then add_graph, two steps), compared structurally (node "
                "ids, classes, connections): add_node writes the extra properties after the node exists, so a "
                "concurrent clone may see the node without them; NodeIDs added by different threads are distinct",
                "liveness beyond 'no thread is parked forever in this bounded run' is not claimed"]
@@ -253,29 +254,73 @@ def run_seq(case):
 
 
 # ------------------------------------------------------------------ (b) concurrent
-def serial_outcomes(threads, fl):
-    """canonical final states of every serial order of the operations that respects per-thread order"""
-    outs = []
-    seen = set()
-    idx = [0] * len(threads)
+def _steps(ops):
+    """atomic store-level steps of a thread's operations: clone_graph is extract_graph (a locked read) followed by
+    add_graph (a locked write) - two store operations, not one"""
+    out = []
+    for op in ops:
+        if op[0] == "clone":
+            out.append(["clone_read", op[1], op[2]])
+            out.append(["clone_write", op[1], op[2]])
+        else:
+            out.append(op)
+    return out
 
-    def rec(order):
-        if all(idx[t] == len(threads[t]) for t in range(len(threads))):
-            M = RefStore()
-            _init_model(M)
-            for t, i in order:
-                _model_do(M, threads[t][i], fl)
-            c = json.dumps({g: _struct(M.canon(g)) for g in GIDS}, sort_keys=True)
-            if c not in seen:
-                seen.add(c)
-                outs.append(c)
-            return
-        for t in range(len(threads)):
-            if idx[t] < len(threads[t]):
-                idx[t] += 1
-                rec(order + [(t, idx[t] - 1)])
-                idx[t] -= 1
-    rec([])
+
+def _freeze(M, regs):
+    def fg(G):
+        return (tuple(sorted((i, tuple(sorted((k, repr(v)) for k, v in p.items()))) for i, p in G["nodes"].items())),
+                tuple(sorted((tuple(sorted(k)), tuple(sorted((a, repr(b)) for a, b in p.items())))
+                             for k, p in G["edges"].items())))
+    return (tuple(sorted((g, fg(G)) for g, G in M.graphs.items() if G["nodes"])),
+            tuple(sorted((t, None if r is None else fg(r)) for t, r in regs.items())))
+
+
+def serial_outcomes(threads, fl):
+    """canonical final states of every serial order of the store-level steps that respects per-thread order
+    (breadth-first over (positions, model state) with duplicate states merged)"""
+    import copy
+    steps = [_steps(t) for t in threads]
+    n = len(steps)
+
+    def apply(M, regs, t, st_):
+        k = st_[0]
+        if k == "clone_read":
+            regs[t] = None if M.empty(st_[1]) else copy.deepcopy(M.g(st_[1]))
+        elif k == "clone_write":
+            snap = regs.pop(t, None)
+            if snap is None:
+                return          # empty source: AttributeError on the shared store / empty graph on the other: no effect
+            if fl == "disjoint" and not M.empty(st_[2]):
+                return          # documented skip
+            M.delete_graph(st_[2])
+            G = copy.deepcopy(snap)
+            for p in G["nodes"].values():
+                p["GraphID"] = st_[2]
+            M.graphs[st_[2]] = G
+        else:
+            _model_do(M, st_, fl)
+
+    M0 = RefStore()
+    _init_model(M0)
+    frontier = {(tuple([0] * n), _freeze(M0, {})): (M0, {})}
+    outs, seen_final = [], set()
+    total = sum(len(x) for x in steps)
+    for _ in range(total):
+        nxt = {}
+        for (pos, _key), (M, regs) in frontier.items():
+            for t in range(n):
+                if pos[t] < len(steps[t]):
+                    M2, r2 = copy.deepcopy(M), copy.deepcopy(regs)
+                    apply(M2, r2, t, steps[t][pos[t]])
+                    p2 = tuple(pos[i] + (1 if i == t else 0) for i in range(n))
+                    nxt.setdefault((p2, _freeze(M2, r2)), (M2, r2))
+        frontier = nxt
+    for (_pos, _key), (M, _regs) in frontier.items():
+        c = json.dumps({g: _struct(M.canon(g)) for g in GIDS}, sort_keys=True)
+        if c not in seen_final:
+            seen_final.add(c)
+            outs.append(c)
     return outs
 
 
